@@ -52,6 +52,7 @@ enum Ver {
 #[derive(Clone, Debug)]
 enum Op {
     TIn(u64),
+    TInSh(u64, u8, u8), // value, m-of-n multisig P2SH coin (redeem script keys 4..4+n in order)
     TOut(u64, bool), // value, p2sh?
     TNull(usize),
     SSpend(u64),
@@ -76,6 +77,7 @@ enum Route {
     Mock,
     Build,
     Pczt,
+    Deferred, // DeferredPcztBuilder::build_for_pczt
 }
 
 #[derive(Clone, Debug)]
@@ -87,6 +89,7 @@ struct Req {
     iw: bool,
     opad: (bool, Option<u8>),
     ipad: (bool, Option<u8>),
+    keys: Vec<u8>, // multisig keys registered in the signing set, in registration order
     ops: Vec<Op>,
     rule: Rule,
     route: Route,
@@ -118,6 +121,7 @@ fn pad_s(p: (bool, Option<u8>)) -> String {
 fn op_s(o: &Op) -> String {
     match o {
         Op::TIn(v) => format!("TIn {}", v),
+        Op::TInSh(v, m, n) => format!("TInSh {} {} {}", v, m, n),
         Op::TOut(v, s) => format!("TOut {} {}", v, b(*s)),
         Op::TNull(n) => format!("TNull {}", n),
         Op::SSpend(v) => format!("SSpend {}", v),
@@ -133,7 +137,7 @@ fn op_s(o: &Op) -> String {
 }
 fn req_s(r: &Req) -> String {
     format!(
-        "(mkReq {} {} {} {} {} {} {} {} {} {})",
+        "(mkReq {} {} {} {} {} {} {} {} {} {} {})",
         if r.net == Network::MainNetwork { "Main" } else { "Test" },
         r.height,
         b(r.sap),
@@ -141,6 +145,7 @@ fn req_s(r: &Req) -> String {
         b(r.iw),
         pad_s(r.opad),
         pad_s(r.ipad),
+        list(r.keys.iter().map(|x| zu(*x as u128))),
         list(r.ops.iter().map(op_s)),
         match &r.rule {
             Rule::Zip317 => "RZip317".to_string(),
@@ -150,6 +155,7 @@ fn req_s(r: &Req) -> String {
             Route::Mock => "Mock",
             Route::Build => "Build",
             Route::Pczt => "Pczt",
+            Route::Deferred => "Deferred",
         }
     )
 }
@@ -226,7 +232,6 @@ fn seen_s(s: &Option<Seen>) -> String {
 struct Keys {
     tsk: Vec<secp256k1::SecretKey>,
     tpk: Vec<secp256k1::PublicKey>,
-    signing: TransparentSigningSet,
     sap_extsk: sapling::zip32::ExtendedSpendingKey,
     sap_recv: Vec<(sapling::zip32::ExtendedSpendingKey, sapling::PaymentAddress)>,
     orc_sk: orchard::keys::SpendingKey,
@@ -238,7 +243,8 @@ fn keys() -> Keys {
     let mut signing = TransparentSigningSet::new();
     let mut tsk = vec![];
     let mut tpk = vec![];
-    for k in 0..4u8 {
+    // keys 0..3: P2PKH coins; keys 4..6: multisig redeem scripts
+    for k in 0..7u8 {
         let sk = secp256k1::SecretKey::from_slice(&[k + 1; 32]).unwrap();
         tpk.push(signing.add_key(sk));
         tsk.push(sk);
@@ -257,7 +263,7 @@ fn keys() -> Keys {
         .filter_map(|i| orchard::keys::SpendingKey::from_bytes([0x20 + i; 32]).into_option())
         .map(|sk| orchard::keys::FullViewingKey::from(&sk))
         .collect();
-    Keys { tsk, tpk, signing, sap_extsk, sap_recv, orc_sk, orc_fvk, orc_recv }
+    Keys { tsk, tpk, sap_extsk, sap_recv, orc_sk, orc_fvk, orc_recv }
 }
 
 fn memo_for(tag: u8, j: usize, v: u64) -> MemoBytes {
@@ -396,7 +402,7 @@ fn berr_s<FE>(e: &BErr<FE>) -> String {
         BErr::SaplingBuilderNotAvailable => "ESaplingNA".into(),
         BErr::OrchardBuilderNotAvailable => "EOrchardNA".into(),
         BErr::IronwoodBuilderNotAvailable => "EIronwoodNA".into(),
-        BErr::AnchorDeferralUnsupported(_) => "EOther".into(),
+        BErr::AnchorDeferralUnsupported(_) => "EDeferral".into(),
         BErr::Coinbase(_) => "EOther".into(),
         BErr::CoinbaseExpiryHeightMismatch { .. } => "EOther".into(),
         BErr::TargetIncompatible(_, v, p) => format!("ETarget {} {}", ver_s(*v), pool_s(*p)),
@@ -429,7 +435,7 @@ struct Built {
     branch: u32,
     expiry: u32,
     lock: u32,
-    tin: Vec<i128>,
+    tin: Vec<(i128, i128)>, // (value of the spent coin, size the input is charged for)
     tout: Vec<(u64, usize)>,
     sap: Option<Shb>,
     orc: Option<Shb>,
@@ -445,7 +451,7 @@ fn built_s(x: &Built) -> String {
         x.branch,
         x.expiry,
         x.lock,
-        list(x.tin.iter().map(|v| z(*v))),
+        list(x.tin.iter().map(|(v, s)| pair(z(*v), z(*s)))),
         list(x.tout.iter().map(|(v, s)| pair(zu(*v as u128), zu(*s as u128)))),
         shb_s(&x.sap),
         shb_s(&x.orc),
@@ -456,10 +462,75 @@ fn built_s(x: &Built) -> String {
     )
 }
 
+#[derive(Clone)]
+enum CoinKind {
+    P2pkh(usize),        // key index
+    P2sh(u8, u8, Vec<u8>), // m, n, redeem script bytes
+}
+
+fn redeem_script(k: &Keys, m: u8, n: u8) -> Vec<u8> {
+    let mut v = vec![0x50 + m];
+    for i in 0..n as usize {
+        v.push(33);
+        v.extend_from_slice(&k.tpk[4 + i].serialize());
+    }
+    v.push(0x50 + n);
+    v.push(0xae);
+    v
+}
+
+/// Splits a script consisting only of pushes into the pushed items (None when anything else occurs).
+fn pushes(sc: &[u8]) -> Option<Vec<Vec<u8>>> {
+    let mut out = vec![];
+    let mut i = 0;
+    while i < sc.len() {
+        let op = sc[i];
+        i += 1;
+        let l = match op {
+            0 => 0,
+            1..=75 => op as usize,
+            76 => {
+                let l = *sc.get(i)? as usize;
+                i += 1;
+                l
+            }
+            77 => {
+                let l = *sc.get(i)? as usize | (*sc.get(i + 1)? as usize) << 8;
+                i += 2;
+                l
+            }
+            _ => return None,
+        };
+        if i + l > sc.len() {
+            return None;
+        }
+        out.push(sc[i..i + l].to_vec());
+        i += l;
+    }
+    Some(out)
+}
+
+/// The size a transparent input is charged for, derived from the scriptSig that was actually
+/// produced: a P2PKH scriptSig is charged the ZIP 317 standard size; a multisig P2SH scriptSig is
+/// charged prevout + sequence + its script with every signature taken at its maximum (73 bytes).
+fn charged_size_of_script_sig(ss: &[u8]) -> i128 {
+    match pushes(ss) {
+        Some(items) if items.len() == 2 && items[1].len() == 33 && !items[0].is_empty() => 150,
+        Some(items) if items.len() >= 2 && items[0].is_empty() => {
+            let nsig = items.len() - 2;
+            let rl = items[items.len() - 1].len();
+            let push = if rl <= 75 { 1 + rl } else if rl <= 255 { 2 + rl } else { 3 + rl };
+            let sl = 1 + 74 * nsig + push;
+            (36 + (if sl < 253 { 1 } else { 3 }) + sl + 4) as i128
+        }
+        _ => -1,
+    }
+}
+
 // What the harness asked for, in request order, for the crypto checks.
 #[derive(Default)]
 struct Asked {
-    coins: Vec<(OutPoint, TxOut, usize)>, // outpoint, coin, key index
+    coins: Vec<(OutPoint, TxOut, CoinKind)>, // outpoint, coin, how it is spent
     sap_outs: Vec<(usize, u64, MemoBytes)>, // receiver index, value, memo
     orc_outs: Vec<(usize, u64, MemoBytes, bool)>, // receiver index (usize::MAX = own fvk internal), value, memo, is_change
     iw_outs: Vec<(usize, u64, MemoBytes)>,
@@ -521,47 +592,72 @@ fn check_sigs(tx: &Transaction, asked: &Asked, k: &Keys) -> bool {
     let secp = secp256k1::Secp256k1::verification_only();
     let bundle = hd.transparent_bundle().unwrap();
     for (i, vin) in bundle.vin.iter().enumerate() {
-        let (op, coin, ki) = &asked.coins[i];
+        let (op, coin, kind) = &asked.coins[i];
         if vin.prevout() != op {
             return false;
         }
         let ss: &Vec<u8> = &vin.script_sig().0 .0;
-        // <push sig||hashtype> <push pubkey>
-        if ss.is_empty() {
-            return false;
-        }
-        let l1 = ss[0] as usize;
-        if l1 == 0 || l1 > 75 || ss.len() < 1 + l1 + 1 {
-            return false;
-        }
-        let sig = &ss[1..1 + l1];
-        let l2 = ss[1 + l1] as usize;
-        if ss.len() != 1 + l1 + 1 + l2 {
-            return false;
-        }
-        let pk = &ss[2 + l1..];
-        if sig[sig.len() - 1] != 1 || pk != &k.tpk[*ki].serialize()[..] {
-            return false;
-        }
-        let si = match SignableInput::from_parts(
-            bundle,
-            SighashType::ALL,
-            i,
-            coin.script_pubkey(),
-            coin.script_pubkey(),
-            coin.value(),
-        ) {
-            Ok(x) => x,
-            Err(_) => return false,
+        let items = match pushes(ss) {
+            Some(x) => x,
+            None => return false,
         };
-        let h = signature_hash(&hd, &zcash_primitives::transaction::sighash::SignableInput::Transparent(si), &parts);
-        let msg = secp256k1::Message::from_digest(*h.as_ref());
-        let s = match secp256k1::ecdsa::Signature::from_der(&sig[..sig.len() - 1]) {
-            Ok(s) => s,
-            Err(_) => return false,
+        let sighash_for = |script_code: &Script| -> Option<secp256k1::Message> {
+            let si = SignableInput::from_parts(bundle, SighashType::ALL, i, script_code, coin.script_pubkey(), coin.value()).ok()?;
+            let h = signature_hash(&hd, &zcash_primitives::transaction::sighash::SignableInput::Transparent(si), &parts);
+            Some(secp256k1::Message::from_digest(*h.as_ref()))
         };
-        if secp.verify_ecdsa(&msg, &s, &k.tpk[*ki]).is_err() {
-            return false;
+        let verify = |sig: &[u8], pk: &[u8], msg: &secp256k1::Message| -> bool {
+            if sig.is_empty() || sig[sig.len() - 1] != 1 {
+                return false;
+            }
+            let s = match secp256k1::ecdsa::Signature::from_der(&sig[..sig.len() - 1]) {
+                Ok(s) => s,
+                Err(_) => return false,
+            };
+            let pk = match secp256k1::PublicKey::from_slice(pk) {
+                Ok(p) => p,
+                Err(_) => return false,
+            };
+            secp.verify_ecdsa(msg, &s, &pk).is_ok()
+        };
+        match kind {
+            CoinKind::P2pkh(ki) => {
+                // <sig||hashtype> <pubkey>, the pubkey being the one the coin pays to
+                if items.len() != 2 || items[1] != k.tpk[*ki].serialize().to_vec() {
+                    return false;
+                }
+                let msg = match sighash_for(coin.script_pubkey()) {
+                    Some(m) => m,
+                    None => return false,
+                };
+                if !verify(&items[0], &items[1], &msg) {
+                    return false;
+                }
+            }
+            CoinKind::P2sh(m, n, redeem) => {
+                // OP_0 <sig>*m <redeem script>; evaluated as OP_CHECKMULTISIG does: signatures and
+                // the redeem script's public keys are consumed in lock step, in order.
+                if items.len() != *m as usize + 2 || !items[0].is_empty() || &items[items.len() - 1] != redeem {
+                    return false;
+                }
+                let code = Script(zcash_script::script::Code(redeem.clone()));
+                let msg = match sighash_for(&code) {
+                    Some(m) => m,
+                    None => return false,
+                };
+                let sigs = &items[1..items.len() - 1];
+                let pks: Vec<Vec<u8>> = (0..*n as usize).map(|j| k.tpk[4 + j].serialize().to_vec()).collect();
+                let (mut isig, mut ikey) = (0usize, 0usize);
+                while isig < sigs.len() {
+                    if pks.len() - ikey < sigs.len() - isig {
+                        return false;
+                    }
+                    if verify(&sigs[isig], &pks[ikey], &msg) {
+                        isig += 1;
+                    }
+                    ikey += 1;
+                }
+            }
         }
     }
     true
@@ -656,11 +752,182 @@ fn check_sapling_dec<A: sapling::bundle::Authorization, V>(
 // ---------------------------------------------------------------------------------------------
 // Running one request
 
+fn finish_pczt(
+    res: PcztResult<Network>,
+    asked: &Asked,
+    iw_outs4: &[(usize, u64, MemoBytes, bool)],
+    k: &Keys,
+    zip212: sapling::note_encryption::Zip212Enforcement,
+) -> Res {
+    let PcztResult { pczt_parts: parts, sapling_meta, orchard_meta, ironwood_meta } = res;
+                        let sap = parts.sapling.as_ref().map(|x| Shb {
+                            nsp: x.spends().len(),
+                            nout: x.outputs().len(),
+                            vb: x.value_sum().to_raw(),
+                            spv: x.spends().iter().map(|s| s.value().map(|v| v.inner())).collect(),
+                            outv: x.outputs().iter().map(|s| s.value().map(|v| v.inner())).collect(),
+                        });
+                        let oshb = |x: &orchard::pczt::Bundle| Shb {
+                            nsp: x.actions().len(),
+                            nout: x.actions().len(),
+                            vb: i64::try_from(*x.value_sum()).map(|v| v as i128).unwrap_or(i128::MAX),
+                            spv: x.actions().iter().map(|a| a.spend().value().map(|v| v.inner())).collect(),
+                            outv: x.actions().iter().map(|a| a.output().value().map(|v| v.inner())).collect(),
+                        };
+                        let orc = parts.orchard.as_ref().map(oshb);
+                        let iw = parts.ironwood.as_ref().map(oshb);
+                        let tin: Vec<(i128, i128)> = parts.transparent.as_ref().map_or(vec![], |t| {
+                            t.inputs()
+                                .iter()
+                                .map(|i| {
+                                    let sz = match i.redeem_script() {
+                                        None => 150,
+                                        Some(rs) => transparent::builder::p2sh_input_serialized_len(rs).map_or(-1, |x| x as i128),
+                                    };
+                                    (u64::from(*i.value()) as i128, sz)
+                                })
+                                .collect()
+                        });
+                        let tout: Vec<(u64, usize)> = parts.transparent.as_ref().map_or(vec![], |t| {
+                            t.outputs()
+                                .iter()
+                                .map(|o| {
+                                    let sc: Script = o.script_pubkey().clone().into();
+                                    (u64::from(*o.value()), 8 + sc.serialized_size())
+                                })
+                                .collect()
+                        });
+                        // decryption through the effects-only bundles
+                        let se = parts.sapling.as_ref().and_then(|x| x.extract_effects::<i64>().ok().flatten());
+                        let oe = parts.orchard.as_ref().and_then(|x| x.extract_effects::<i64>().ok().flatten());
+                        let ie = parts.ironwood.as_ref().and_then(|x| x.extract_effects::<i64>().ok().flatten());
+                        let dec = check_sapling_dec(se.as_ref(), &sapling_meta, &asked.sap_outs, k, zip212)
+                            && check_orchard_dec(oe.as_ref(), &orchard_meta, &asked.orc_outs, k)
+                            && check_orchard_dec(ie.as_ref(), &ironwood_meta, &iw_outs4, k);
+                        let (ver, branch, expiry, lock) =
+                            (parts.version, u32::from(parts.consensus_branch_id), u32::from(parts.expiry_height), parts.lock_time);
+                        // PCZT Creator: the header fields must survive `build_from_parts`.
+                        let hdr_ok = match pczt::roles::creator::Creator::build_from_parts(parts) {
+                            Some(p) => {
+                                *p.global().expiry_height() == expiry
+                                    && *p.global().consensus_branch_id() == branch
+                                    && *p.global().tx_version()
+                                        == match ver {
+                                            TxVersion::V4 => 4,
+                                            TxVersion::V5 => 5,
+                                            TxVersion::V6 => 6,
+                                            _ => 0,
+                                        }
+                                    && p.transparent().inputs().len() == tin.len()
+                                    && p.transparent().outputs().len() == tout.len()
+                                    && p.sapling().outputs().len() == sap.as_ref().map_or(0, |s| s.nout)
+                                    && p.orchard().actions().len() == orc.as_ref().map_or(0, |s| s.nout)
+                                    && p.ironwood().actions().len() == iw.as_ref().map_or(0, |s| s.nout)
+                            }
+                            None => matches!(ver, TxVersion::Sprout(_) | TxVersion::V3),
+                        };
+    Res::Ok(Built { ver, branch, expiry, lock, tin, tout, sap, orc, iw, fee_paid: None, dec, sig: hdr_ok })
+}
+
+
 enum Res {
     Ok(Built),
     Err(String),
     AddErr(usize, String),
     Panic,
+}
+
+/// The anchor-deferring PCZT builder (what zcash_pool_migration uses): Orchard and Ironwood only,
+/// spends added without witnesses.
+fn run_deferred(
+    req: &Req,
+    k: &Keys,
+    probe: &Probe,
+    brng: ChaCha8Rng,
+    mut onotes: Vec<(orchard::Note, orchard::tree::MerklePath)>,
+    mut inotes: Vec<(orchard::Note, orchard::tree::MerklePath)>,
+    zip212: sapling::note_encryption::Zip212Enforcement,
+) -> Res {
+    use zcash_primitives::transaction::builder::DeferredPcztBuilder;
+    let mut bld = match DeferredPcztBuilder::new::<ProbeErr>(
+        req.net,
+        BlockHeight::from_u32(req.height),
+        BundlePadding { bundle_required: req.opad.0, pad_to_minimum: req.opad.1 },
+        BundlePadding { bundle_required: req.ipad.0, pad_to_minimum: req.ipad.1 },
+    ) {
+        Ok(b) => b,
+        Err(e) => return Res::Err(berr_s(&e)),
+    };
+    let mut asked = Asked::default();
+    let (mut noo, mut nio) = (0usize, 0usize);
+    for (i, o) in req.ops.iter().enumerate() {
+        let e: Result<(), String> = match o {
+            Op::OSpend(_) => {
+                let (note, _) = onotes.pop().unwrap();
+                bld.add_orchard_spend::<ProbeErr>(k.orc_fvk.clone(), note).map_err(|e| berr_s(&e))
+            }
+            Op::OOut(v) => {
+                let ri = noo % k.orc_recv.len();
+                let memo = memo_for(b'o', noo, *v);
+                noo += 1;
+                let (_, addr) = orc_ivk(k, ri, false);
+                let r = bld
+                    .add_orchard_output::<ProbeErr>(None, addr, Zatoshis::from_u64(*v).unwrap(), memo.clone())
+                    .map_err(|e| berr_s(&e));
+                if r.is_ok() {
+                    asked.orc_outs.push((ri, *v, memo, false));
+                }
+                r
+            }
+            Op::OChange(v) => {
+                let memo = memo_for(b'c', noo, *v);
+                noo += 1;
+                let (_, addr) = orc_ivk(k, 0, true);
+                let r = bld
+                    .add_orchard_change_output::<ProbeErr>(k.orc_fvk.clone(), None, addr, Zatoshis::from_u64(*v).unwrap(), memo.clone())
+                    .map_err(|e| berr_s(&e));
+                if r.is_ok() {
+                    asked.orc_outs.push((0, *v, memo, true));
+                }
+                r
+            }
+            Op::ISpend(_, _) => {
+                let (note, _) = inotes.pop().unwrap();
+                bld.add_ironwood_spend::<ProbeErr>(k.orc_fvk.clone(), note).map_err(|e| berr_s(&e))
+            }
+            Op::IOut(v) => {
+                let ri = nio % k.orc_recv.len();
+                let memo = memo_for(b'i', nio, *v);
+                nio += 1;
+                let (_, addr) = orc_ivk(k, ri, false);
+                let r = bld
+                    .add_ironwood_output::<ProbeErr>(None, addr, Zatoshis::from_u64(*v).unwrap(), memo.clone())
+                    .map_err(|e| berr_s(&e));
+                if r.is_ok() {
+                    asked.iw_outs.push((ri, *v, memo));
+                }
+                r
+            }
+            Op::Expiry(h) => {
+                bld = bld.with_expiry_height(BlockHeight::from_u32(*h));
+                Ok(())
+            }
+            // not part of this builder's interface
+            _ => Err("EOther".to_string()),
+        };
+        if let Err(s) = e {
+            return Res::AddErr(i, s);
+        }
+    }
+    let iw_outs4: Vec<(usize, u64, MemoBytes, bool)> = asked.iw_outs.iter().map(|(a, v, m)| (*a, *v, m.clone(), false)).collect();
+    let out: Result<PcztResult<Network>, String> = match &req.rule {
+        Rule::Zip317 => bld.build_for_pczt(brng, &zip317::FeeRule::standard()).map_err(|e| berr_s(&e)),
+        Rule::Lin(_) => bld.build_for_pczt(brng, probe).map_err(|e| berr_s(&e)),
+    };
+    match out {
+        Err(s) => Res::Err(s),
+        Ok(res) => finish_pczt(res, &asked, &iw_outs4, k, zip212),
+    }
 }
 
 fn run(req: &Req, k: &Keys, r: &mut Rng) -> (Option<Seen>, Res) {
@@ -708,6 +975,12 @@ fn run(req: &Req, k: &Keys, r: &mut Rng) -> (Option<Seen>, Res) {
     };
     let zip212 = zip212_enforcement(&req.net, height);
 
+    if req.route == Route::Deferred {
+        let res = catch(|| run_deferred(req, k, &probe, brng.clone(), onotes.clone(), inotes.clone(), zip212));
+        let seen = probe.seen.borrow().clone();
+        return (seen, res.unwrap_or(Res::Panic));
+    }
+
     let res = catch(|| -> Res {
         let mut bld = Builder::new(req.net, height, cfg);
         let mut asked = Asked::default();
@@ -725,8 +998,25 @@ fn run(req: &Req, k: &Keys, r: &mut Rng) -> (Option<Seen>, Res) {
                         TransparentAddress::from_pubkey(&k.tpk[ki]).script().into(),
                     );
                     nti += 1;
-                    asked.coins.push((op.clone(), coin.clone(), ki));
+                    asked.coins.push((op.clone(), coin.clone(), CoinKind::P2pkh(ki)));
                     bld.add_transparent_p2pkh_input(k.tpk[ki], op, coin).map_err(|_| "ETransparentBuild".to_string())
+                }
+                Op::TInSh(v, m, n) => {
+                    let rs = redeem_script(k, *m, *n);
+                    let mut h = [0u8; 32];
+                    h.copy_from_slice(&case_tag);
+                    h[0] = nti as u8;
+                    let op = OutPoint::new(h, nti as u32);
+                    let coin = TxOut::new(
+                        Zatoshis::from_u64(*v).unwrap(),
+                        TransparentAddress::ScriptHash(transparent::util::hash160::hash(&rs)).script().into(),
+                    );
+                    nti += 1;
+                    asked.coins.push((op.clone(), coin.clone(), CoinKind::P2sh(*m, *n, rs.clone())));
+                    match zcash_script::script::FromChain::parse(&zcash_script::script::Code(rs)) {
+                        Ok(fc) => bld.add_transparent_p2sh_input(fc, op, coin).map_err(|_| "ETransparentBuild".to_string()),
+                        Err(_) => Err("EOther".to_string()),
+                    }
                 }
                 Op::TOut(v, p2sh) => {
                     let a = if *p2sh {
@@ -824,6 +1114,14 @@ fn run(req: &Req, k: &Keys, r: &mut Rng) -> (Option<Seen>, Res) {
         let saks = [orchard::keys::SpendAuthorizingKey::from(&k.orc_sk)];
         let coins: BTreeMap<OutPoint, Zatoshis> =
             asked.coins.iter().map(|(op, c, _)| (op.clone(), c.value())).collect();
+        // signing set of this case: the P2PKH keys, then the multisig keys in the requested order
+        let mut signing = TransparentSigningSet::new();
+        for ki in 0..4 {
+            signing.add_key(k.tsk[ki]);
+        }
+        for ki in &req.keys {
+            signing.add_key(k.tsk[*ki as usize]);
+        }
         let iw_outs4: Vec<(usize, u64, MemoBytes, bool)> =
             asked.iw_outs.iter().map(|(a, v, m)| (*a, *v, m.clone(), false)).collect();
 
@@ -862,7 +1160,12 @@ fn run(req: &Req, k: &Keys, r: &mut Rng) -> (Option<Seen>, Res) {
                 expiry: u32::from(tx.expiry_height()),
                 lock: tx.lock_time(),
                 tin: tx.transparent_bundle().map_or(vec![], |bd| {
-                    bd.vin.iter().map(|i| coins.get(i.prevout()).map_or(-1, |v| u64::from(*v) as i128)).collect()
+                    bd.vin
+                        .iter()
+                        .map(|i| {
+                            (coins.get(i.prevout()).map_or(-1, |v| u64::from(*v) as i128), charged_size_of_script_sig(&i.script_sig().0 .0))
+                        })
+                        .collect()
                 }),
                 tout: tx.transparent_bundle().map_or(vec![], |bd| {
                     bd.vout.iter().map(|o| (u64::from(o.value()), 8 + o.script_pubkey().serialized_size())).collect()
@@ -877,7 +1180,7 @@ fn run(req: &Req, k: &Keys, r: &mut Rng) -> (Option<Seen>, Res) {
         };
 
         match req.route {
-            Route::Mock => match bld.mock_build(&k.signing, &extsks, &saks, brng) {
+            Route::Mock => match bld.mock_build(&signing, &extsks, &saks, brng) {
                 Ok(res) => finish_tx(res),
                 Err(e) => Res::Err(berr_s(&e)),
             },
@@ -886,15 +1189,16 @@ fn run(req: &Req, k: &Keys, r: &mut Rng) -> (Option<Seen>, Res) {
                 let opv = sapling::prover::mock::MockOutputProver;
                 let out = match &req.rule {
                     Rule::Zip317 => bld
-                        .build(&k.signing, &extsks, &saks, brng, &sp, &opv, &zip317::FeeRule::standard())
+                        .build(&signing, &extsks, &saks, brng, &sp, &opv, &zip317::FeeRule::standard())
                         .map_err(|e| berr_s(&e)),
-                    Rule::Lin(_) => bld.build(&k.signing, &extsks, &saks, brng, &sp, &opv, &probe).map_err(|e| berr_s(&e)),
+                    Rule::Lin(_) => bld.build(&signing, &extsks, &saks, brng, &sp, &opv, &probe).map_err(|e| berr_s(&e)),
                 };
                 match out {
                     Ok(res) => finish_tx(res),
                     Err(s) => Res::Err(s),
                 }
             }
+            Route::Deferred => unreachable!(),
             Route::Pczt => {
                 let out: Result<PcztResult<Network>, String> = match &req.rule {
                     Rule::Zip317 => bld.build_for_pczt(brng, &zip317::FeeRule::standard()).map_err(|e| berr_s(&e)),
@@ -902,68 +1206,7 @@ fn run(req: &Req, k: &Keys, r: &mut Rng) -> (Option<Seen>, Res) {
                 };
                 match out {
                     Err(s) => Res::Err(s),
-                    Ok(res) => {
-                        let PcztResult { pczt_parts: parts, sapling_meta, orchard_meta, ironwood_meta } = res;
-                        let sap = parts.sapling.as_ref().map(|x| Shb {
-                            nsp: x.spends().len(),
-                            nout: x.outputs().len(),
-                            vb: x.value_sum().to_raw(),
-                            spv: x.spends().iter().map(|s| s.value().map(|v| v.inner())).collect(),
-                            outv: x.outputs().iter().map(|s| s.value().map(|v| v.inner())).collect(),
-                        });
-                        let oshb = |x: &orchard::pczt::Bundle| Shb {
-                            nsp: x.actions().len(),
-                            nout: x.actions().len(),
-                            vb: i64::try_from(*x.value_sum()).map(|v| v as i128).unwrap_or(i128::MAX),
-                            spv: x.actions().iter().map(|a| a.spend().value().map(|v| v.inner())).collect(),
-                            outv: x.actions().iter().map(|a| a.output().value().map(|v| v.inner())).collect(),
-                        };
-                        let orc = parts.orchard.as_ref().map(oshb);
-                        let iw = parts.ironwood.as_ref().map(oshb);
-                        let tin: Vec<i128> = parts
-                            .transparent
-                            .as_ref()
-                            .map_or(vec![], |t| t.inputs().iter().map(|i| u64::from(*i.value()) as i128).collect());
-                        let tout: Vec<(u64, usize)> = parts.transparent.as_ref().map_or(vec![], |t| {
-                            t.outputs()
-                                .iter()
-                                .map(|o| {
-                                    let sc: Script = o.script_pubkey().clone().into();
-                                    (u64::from(*o.value()), 8 + sc.serialized_size())
-                                })
-                                .collect()
-                        });
-                        // decryption through the effects-only bundles
-                        let se = parts.sapling.as_ref().and_then(|x| x.extract_effects::<i64>().ok().flatten());
-                        let oe = parts.orchard.as_ref().and_then(|x| x.extract_effects::<i64>().ok().flatten());
-                        let ie = parts.ironwood.as_ref().and_then(|x| x.extract_effects::<i64>().ok().flatten());
-                        let dec = check_sapling_dec(se.as_ref(), &sapling_meta, &asked.sap_outs, k, zip212)
-                            && check_orchard_dec(oe.as_ref(), &orchard_meta, &asked.orc_outs, k)
-                            && check_orchard_dec(ie.as_ref(), &ironwood_meta, &iw_outs4, k);
-                        let (ver, branch, expiry, lock) =
-                            (parts.version, u32::from(parts.consensus_branch_id), u32::from(parts.expiry_height), parts.lock_time);
-                        // PCZT Creator: the header fields must survive `build_from_parts`.
-                        let hdr_ok = match pczt::roles::creator::Creator::build_from_parts(parts) {
-                            Some(p) => {
-                                *p.global().expiry_height() == expiry
-                                    && *p.global().consensus_branch_id() == branch
-                                    && *p.global().tx_version()
-                                        == match ver {
-                                            TxVersion::V4 => 4,
-                                            TxVersion::V5 => 5,
-                                            TxVersion::V6 => 6,
-                                            _ => 0,
-                                        }
-                                    && p.transparent().inputs().len() == tin.len()
-                                    && p.transparent().outputs().len() == tout.len()
-                                    && p.sapling().outputs().len() == sap.as_ref().map_or(0, |s| s.nout)
-                                    && p.orchard().actions().len() == orc.as_ref().map_or(0, |s| s.nout)
-                                    && p.ironwood().actions().len() == iw.as_ref().map_or(0, |s| s.nout)
-                            }
-                            None => matches!(ver, TxVersion::Sprout(_) | TxVersion::V3),
-                        };
-                        Res::Ok(Built { ver, branch, expiry, lock, tin, tout, sap, orc, iw, fee_paid: None, dec, sig: hdr_ok })
-                    }
+                    Ok(res) => finish_pczt(res, &asked, &iw_outs4, k, zip212),
                 }
             }
         }
@@ -1029,7 +1272,7 @@ fn has_orchard_ops(req: &Req) -> bool {
 }
 /// A successful build on a transaction route would create a real Orchard proof.
 fn may_prove(req: &Req) -> bool {
-    req.route != Route::Pczt && (has_orchard_ops(req) || (req.orc && req.opad.0) || (req.iw && req.ipad.0))
+    req.route != Route::Pczt && req.route != Route::Deferred && (has_orchard_ops(req) || (req.orc && req.opad.0) || (req.iw && req.ipad.0))
 }
 
 fn value(r: &mut Rng) -> u64 {
@@ -1096,7 +1339,12 @@ fn gen_req(r: &mut Rng) -> Req {
     let mut val = |r: &mut Rng| if small { r.range(0, 300_000) } else { value(r) };
     if r.chance(3, 5) {
         for _ in 0..r.below(4) {
-            ops.push(Op::TIn(val(r)));
+            if r.chance(1, 4) {
+                let (m, n) = *r.pick(&[(1u8, 1u8), (2, 2), (2, 3), (1, 2), (3, 3), (1, 3)]);
+                ops.push(Op::TInSh(val(r), m, n));
+            } else {
+                ops.push(Op::TIn(val(r)));
+            }
         }
         for _ in 0..r.below(4) {
             ops.push(Op::TOut(val(r), r.chance(1, 3)));
@@ -1167,18 +1415,21 @@ fn gen_req(r: &mut Rng) -> Req {
         (_, 0..=5, _) | (_, 6..=8, true) => Route::Build,
         _ => Route::Pczt,
     };
-    Req { net, height, sap, orc, iw, opad, ipad, ops, rule, route }
+    let keys: Vec<u8> = r
+        .pick(&[vec![4u8, 5, 6], vec![4, 5, 6], vec![6, 5, 4], vec![5, 6, 4], vec![5, 4], vec![4, 6], vec![6], vec![]])
+        .clone();
+    Req { net, height, sap, orc, iw, opad, ipad, keys, ops, rule, route }
 }
 
 /// Model-free balancing: use the amount the builder itself reports.
 fn adjust(req: &Req, amount: i128, insufficient: bool, r: &mut Rng) -> Option<Req> {
     let mut q = req.clone();
     let amt = amount as u64;
-    let is_in = |o: &Op| matches!(o, Op::TIn(_) | Op::SSpend(_) | Op::OSpend(_) | Op::ISpend(..));
+    let is_in = |o: &Op| matches!(o, Op::TIn(_) | Op::TInSh(..) | Op::SSpend(_) | Op::OSpend(_) | Op::ISpend(..));
     let is_out = |o: &Op| matches!(o, Op::TOut(..) | Op::SOut(_) | Op::OOut(_) | Op::OChange(_) | Op::IOut(_));
     let bump = |o: &mut Op, d: i128| -> bool {
         let v: &mut u64 = match o {
-            Op::TIn(v) | Op::SSpend(v) | Op::OSpend(v) | Op::ISpend(v, _) | Op::TOut(v, _) | Op::SOut(v) | Op::OOut(v)
+            Op::TIn(v) | Op::TInSh(v, _, _) | Op::SSpend(v) | Op::OSpend(v) | Op::ISpend(v, _) | Op::TOut(v, _) | Op::SOut(v) | Op::OOut(v)
             | Op::OChange(v) | Op::IOut(v) => v,
             _ => return false,
         };
@@ -1206,7 +1457,11 @@ fn adjust(req: &Req, amount: i128, insufficient: bool, r: &mut Rng) -> Option<Re
             }
         }
         if q.ops.len() < 12 {
-            q.ops.push(Op::TIn(amount.min(MAX_MONEY as i128) as u64));
+            if q.route == Route::Deferred {
+                q.ops.push(Op::ISpend(amount.min(MAX_MONEY as i128) as u64, true));
+            } else {
+                q.ops.push(Op::TIn(amount.min(MAX_MONEY as i128) as u64));
+            }
             return Some(q);
         }
         None
@@ -1227,6 +1482,9 @@ fn adjust(req: &Req, amount: i128, insufficient: bool, r: &mut Rng) -> Option<Re
 }
 
 fn run_with_balancing(req: Req, k: &Keys, r: &mut Rng, stats: &mut BTreeMap<String, u64>, allow_prove: bool) {
+    run_with_balancing_v(req, k, r, stats, allow_prove, false)
+}
+fn run_with_balancing_v(req: Req, k: &Keys, r: &mut Rng, stats: &mut BTreeMap<String, u64>, allow_prove: bool, all: bool) {
     let (_, res) = emit(&req, k, r, stats);
     let (amt, insuff) = match res {
         Res::Err(s) if s.starts_with("EInsufficient ") => (s[14..].trim_matches(|c| c == '(' || c == ')').parse::<i128>().unwrap(), true),
@@ -1235,7 +1493,7 @@ fn run_with_balancing(req: Req, k: &Keys, r: &mut Rng, stats: &mut BTreeMap<Stri
     };
     // exactly balanced, and off by one in both directions
     for d in [0i128, 1, -1] {
-        if d != 0 && !r.chance(1, 3) {
+        if d != 0 && !all && !r.chance(1, 3) {
             continue;
         }
         if amt + d <= 0 {
@@ -1285,6 +1543,7 @@ fn lattice_version(k: &Keys, r: &mut Rng, stats: &mut BTreeMap<String, u64>) {
                         iw: true,
                         opad: (false, None),
                         ipad: (false, None),
+                        keys: vec![4, 5, 6],
                         ops,
                         // the tx routes stay unbalanced (one zatoshi short): no proving, gate still observable
                         rule: Rule::Lin([if route == Route::Pczt { 0 } else { 1 }, 0, 0, 0, 0, 0, 0]),
@@ -1335,6 +1594,7 @@ fn lattice_padding(k: &Keys, r: &mut Rng, stats: &mut BTreeMap<String, u64>) {
                                 iw: true,
                                 opad: if pool == 1 { pad } else { (false, None) },
                                 ipad: if pool == 2 { pad } else { (false, None) },
+                                keys: vec![4, 5, 6],
                                 ops,
                                 rule: Rule::Lin([0, 1, 1, 0, 0, 0, 0]),
                                 route: Route::Pczt,
@@ -1359,6 +1619,7 @@ fn witnesses(k: &Keys, r: &mut Rng, stats: &mut BTreeMap<String, u64>, slow: boo
         iw: true,
         opad: (false, None),
         ipad: (true, None),
+        keys: vec![4, 5, 6],
         ops: vec![Op::Propose(Ver::V5), Op::TIn(1998)],
         rule: Rule::Lin([0, 0, 0, 0, 0, 0, 999]),
         route: Route::Pczt,
@@ -1375,12 +1636,142 @@ fn witnesses(k: &Keys, r: &mut Rng, stats: &mut BTreeMap<String, u64>, slow: boo
     q.ops = vec![Op::Propose(Ver::V4), Op::TIn(1554)];
     q.rule = Rule::Lin([0, 0, 0, 0, 0, 777, 0]);
     emit(&q, k, r, stats);
+    // DeferredPcztBuilder: a required-but-unused Ironwood bundle next to a used Orchard bundle
+    let d = Req {
+        net: Network::MainNetwork,
+        height: h63 + 3,
+        sap: false,
+        orc: false,
+        iw: false,
+        opad: (false, Some(1)),
+        ipad: (true, None),
+        keys: vec![],
+        ops: vec![Op::OSpend(10_000), Op::OChange(5_000)],
+        rule: Rule::Lin([0, 0, 0, 0, 0, 777, 999]),
+        route: Route::Deferred,
+    };
+    run_with_balancing_v(d, k, r, stats, false, true);
     if slow {
         let mut q2 = base.clone();
         q2.route = Route::Build;
         emit(&q2, k, r, stats);
         q.route = Route::Build;
         emit(&q, k, r, stats);
+    }
+}
+
+/// P2SH multisig inputs: m-of-n redeem scripts x key registrations (script order, reversed,
+/// rotated, subsets) x routes; every request is then balanced with the builder's own amount.
+fn lattice_p2sh(k: &Keys, r: &mut Rng, stats: &mut BTreeMap<String, u64>) {
+    let h = u32::from(Network::MainNetwork.activation_height(NetworkUpgrade::Nu6).unwrap());
+    let mut c = 0u32;
+    for (m, n) in [(1u8, 1u8), (1, 2), (2, 2), (2, 3), (3, 3)] {
+        for keys in [vec![4u8, 5, 6], vec![6, 5, 4], vec![5, 6, 4], vec![4, 6], vec![6, 4], vec![5], vec![]] {
+            for route in [Route::Build, Route::Mock, Route::Pczt] {
+                c += 1;
+                let rule = if route == Route::Mock || c % 2 == 0 { Rule::Zip317 } else { Rule::Lin([1000, 3, 1, 0, 0, 0, 0]) };
+                let ops = if c % 3 == 0 {
+                    vec![Op::TIn(30_000), Op::TInSh(40_000, m, n), Op::TOut(20_000, false)]
+                } else {
+                    vec![Op::TInSh(40_000, m, n), Op::TIn(30_000), Op::TInSh(5_000, m, n), Op::TOut(20_000, true)]
+                };
+                let req = Req {
+                    net: Network::MainNetwork,
+                    height: h + c,
+                    sap: false,
+                    orc: false,
+                    iw: false,
+                    opad: (false, None),
+                    ipad: (false, None),
+                    keys: keys.clone(),
+                    ops,
+                    rule,
+                    route,
+                };
+                run_with_balancing_v(req, k, r, stats, false, false);
+            }
+        }
+    }
+}
+
+/// DeferredPcztBuilder: Ironwood-only and Orchard-only shapes with k spends and l outputs for all
+/// small (k, l), padding configurations, both fee rules; under-funded as generated, then balanced,
+/// over-funded by one and under-funded by one using the amount the builder reports.
+fn lattice_deferred(k: &Keys, r: &mut Rng, stats: &mut BTreeMap<String, u64>) {
+    let m63 = u32::from(Network::MainNetwork.activation_height(NetworkUpgrade::Nu6_3).unwrap());
+    let t63 = u32::from(Network::TestNetwork.activation_height(NetworkUpgrade::Nu6_3).unwrap());
+    let pads = [(false, None), (false, Some(1)), (true, None), (false, Some(3)), (true, Some(0))];
+    let mut c = 0u32;
+    for ks in 0..4usize {
+        for lo in 0..4usize {
+            for pad in pads {
+                for pool in 0..2 {
+                    c += 1;
+                    let mut ops = vec![];
+                    for j in 0..ks {
+                        ops.push(if pool == 0 { Op::ISpend(40_000 + j as u64, true) } else { Op::OSpend(40_000 + j as u64) });
+                    }
+                    for j in 0..lo {
+                        ops.push(if pool == 0 { Op::IOut(1_000 + j as u64) } else { Op::OChange(1_000 + j as u64) });
+                    }
+                    let (net, height) = if c % 2 == 0 { (Network::MainNetwork, m63 + c) } else { (Network::TestNetwork, t63 + c) };
+                    let req = Req {
+                        net,
+                        height,
+                        sap: false,
+                        orc: false,
+                        iw: false,
+                        opad: if pool == 1 { pad } else { (false, None) },
+                        ipad: if pool == 0 { pad } else { (false, None) },
+                        keys: vec![],
+                        ops,
+                        rule: if c % 3 == 0 { Rule::Lin([0, 0, 0, 0, 0, 777, 999]) } else { Rule::Zip317 },
+                        route: Route::Deferred,
+                    };
+                    run_with_balancing_v(req, k, r, stats, false, c % 2 == 0);
+                }
+            }
+        }
+    }
+    // mixed pools, refused calls, and heights where anchor deferral is not available
+    for (net, h) in [(Network::MainNetwork, m63 - 1), (Network::TestNetwork, t63 - 1), (Network::MainNetwork, 1_000_000)] {
+        let req = Req {
+            net,
+            height: h,
+            sap: false,
+            orc: false,
+            iw: false,
+            opad: (false, None),
+            ipad: (false, None),
+            keys: vec![],
+            ops: vec![Op::IOut(1)],
+            rule: Rule::Zip317,
+            route: Route::Deferred,
+        };
+        emit(&req, k, r, stats);
+    }
+    for ops in [
+        vec![Op::OSpend(50_000), Op::IOut(35_000)],
+        vec![Op::OSpend(50_000), Op::OOut(1_000)],
+        vec![Op::ISpend(50_000, false)],
+        vec![Op::OSpend(70_000), Op::OChange(5_000), Op::IOut(7_000), Op::ISpend(1_000, true), Op::Expiry(77)],
+        vec![Op::OSpend(u64::MAX), Op::OSpend(5), Op::IOut(7_000)],
+        vec![Op::OSpend(MAX_MONEY), Op::ISpend(MAX_MONEY, true), Op::IOut(7_000)],
+    ] {
+        let req = Req {
+            net: Network::MainNetwork,
+            height: m63 + 7,
+            sap: false,
+            orc: false,
+            iw: false,
+            opad: (false, None),
+            ipad: (false, Some(1)),
+            keys: vec![],
+            ops,
+            rule: Rule::Zip317,
+            route: Route::Deferred,
+        };
+        run_with_balancing_v(req, k, r, stats, false, true);
     }
 }
 
@@ -1399,6 +1790,8 @@ fn main() {
     }
     lattice_version(&k, &mut r, &mut stats);
     lattice_padding(&k, &mut r, &mut stats);
+    lattice_p2sh(&k, &mut r, &mut stats);
+    lattice_deferred(&k, &mut r, &mut stats);
     let n = a.budget(600, 8000);
     let mut proofs = if a.thorough() && !a.search { 3 } else { 0 };
     for _ in 0..n {
